@@ -368,8 +368,11 @@ def _comp(seq, k: tuple, flags: int) -> tuple:
             _, alts = av
             out = alt(*[_comp(a, out, flags) for a in alts])
         elif op is sre_c.SUBPATTERN:
-            p = av[-1]
-            out = _comp(p, out, flags)
+            if av[0] in _BINDS:           # a group that is referred back to: fixed to one of its (single-character) values
+                out = cat(chars({_BINDS[av[0]]}), out)
+            else:
+                p = av[-1]
+                out = _comp(p, out, flags)
         elif op in (sre_c.MAX_REPEAT, sre_c.MIN_REPEAT) or str(op) == "POSSESSIVE_REPEAT":
             lo, hi, sub = av
             if _has_lookaround(sub):
@@ -399,9 +402,61 @@ def _comp(seq, k: tuple, flags: int) -> tuple:
             else:
                 raise Unsupported(f"anchor {name}")
         elif op is sre_c.GROUPREF:
-            raise Unsupported("back-reference")
+            if av not in _BINDS:
+                raise Unsupported("back-reference")
+            out = cat(chars({_BINDS[av]}), out)
         else:
             raise Unsupported(f"regex op {op}")
+    return out
+
+
+# back-references: supported when the referenced group matches exactly one character out of a small set (the quote idiom
+# `(["'])...\1`): the pattern is compiled once per value of the group and the languages are united
+_BINDS: dict = {}
+
+
+def _walk_ops(seq):
+    for op, av in seq:
+        yield op, av
+        if op is sre_c.BRANCH:
+            for a in av[1]:
+                yield from _walk_ops(a)
+        elif op is sre_c.SUBPATTERN:
+            yield from _walk_ops(av[-1])
+        elif op in (sre_c.MAX_REPEAT, sre_c.MIN_REPEAT) or str(op) == "POSSESSIVE_REPEAT":
+            yield from _walk_ops(av[2])
+        elif op in (sre_c.ASSERT, sre_c.ASSERT_NOT):
+            yield from _walk_ops(av[1])
+
+
+def _comp_top(p, k, flags) -> tuple:
+    refs = sorted({av for op, av in _walk_ops(p) if op is sre_c.GROUPREF})
+    if not refs:
+        return _comp(p, k, flags)
+    import itertools
+    choices = []
+    for g in refs:
+        body = [list(av[-1]) for op, av in _walk_ops(p) if op is sre_c.SUBPATTERN and av[0] == g]
+        if len(body) != 1 or len(body[0]) != 1:
+            raise Unsupported("back-reference to a group that is not a single character")
+        op, av = body[0][0]
+        if op is sre_c.LITERAL:
+            cs = {chr(av)}
+        elif op is sre_c.IN:
+            cs = set(_in_set(av, bool(flags & re.IGNORECASE)))
+        else:
+            raise Unsupported("back-reference to a group that is not a single character")
+        if len(cs) > 6:
+            raise Unsupported("back-reference to a group with too many values")
+        choices.append(sorted(cs))
+    out = EMPTY
+    global _BINDS
+    try:
+        for combo in itertools.product(*choices):
+            _BINDS = dict(zip(refs, combo))
+            out = alt(out, _comp(p, k, flags))
+    finally:
+        _BINDS = {}
     return out
 
 
@@ -445,19 +500,19 @@ def parse(pattern: str, flags: int = 0):
 def full(pattern: str, flags: int = 0) -> tuple:
     """language of strings s with re.fullmatch(pattern, s)."""
     p = parse(pattern, flags)
-    return _comp(p, EPS, p.state.flags)
+    return _comp_top(p, EPS, p.state.flags)
 
 
 def match_lang(pattern: str, flags: int = 0) -> tuple:
     """language of strings s with re.match(pattern, s) (prefix match)."""
     p = parse(pattern, flags)
-    return _comp(p, ANYSTAR, p.state.flags)
+    return _comp_top(p, ANYSTAR, p.state.flags)
 
 
 def search_lang(pattern: str, flags: int = 0) -> tuple:
     """language of strings s with re.search(pattern, s)."""
     p = parse(pattern, flags)
-    m = _comp(p, ANYSTAR, p.state.flags)
+    m = _comp_top(p, ANYSTAR, p.state.flags)
     if _starts_anchored(p):
         return m
     return cat(ANYSTAR, m)
@@ -466,7 +521,7 @@ def search_lang(pattern: str, flags: int = 0) -> tuple:
 def prefix_lang(pattern: str, flags: int = 0) -> tuple:
     """language of the strings that a match of `pattern` can *consume* (match then stop)."""
     p = parse(pattern, flags)
-    return _comp(p, EPS, p.state.flags)
+    return _comp_top(p, EPS, p.state.flags)
 
 
 def has_cased_literal(pattern: str, flags: int = 0) -> Optional[str]:
